@@ -15,6 +15,7 @@ JP HeapKnobs::toJson() const {
     JP j = JVal::obj();
     j->set("fill", fill).set("poison", poison).set("placement", placement);
     j->set("redzone", redzone).set("capacity", capacity);
+    if (smallStack) j->set("small_stack", smallStack);
     return j;
 }
 HeapKnobs HeapKnobs::fromJson(const JVal &j) {
@@ -24,6 +25,7 @@ HeapKnobs HeapKnobs::fromJson(const JVal &j) {
     k.placement = (int)j.geti("placement", 0);
     k.redzone = (int)j.geti("redzone", 64);
     k.capacity = j.geti("capacity", 0);
+    k.smallStack = (int)j.geti("small_stack", 0);
     return k;
 }
 HeapKnobs HeapKnobs::benign() {
